@@ -107,28 +107,72 @@ def thresholdState (net : Net) (bit : Nat) (c : Cache) (cs : ChainSt) (n : Node)
     match walkBack net b.length c b [] with
     | (st0, needed) => walkForward net bit c cs st0 needed
 
-/-! ### a whole chain instance: deployment caches + one warning cache per bit -/
+/-! ### a whole chain instance: deployment caches + one warning cache per bit + the warned flag -/
 structure Inst where
   cs : ChainSt
   wcs : Nat → Cache
+  warned : Bool := false
 
-def freshInst (deps : List Dep) : Inst := ⟨Model.fresh deps, fun _ => []⟩
+def freshInst (deps : List Dep) : Inst := ⟨Model.fresh deps, fun _ => [], false⟩
+
+/-- the bits `initThresholdCaches` / `warnUnknownRuleActivations` loop over: 0 .. vbNumBits-1. -/
+def warnBits : List Nat := List.range Spec.VB_NUM_BITS
 
 inductive Q
   | dep (q : Spec.Query)
   | warn (bit : Nat) (n : Node)
+  | warnAll (n : Node)                    -- warnUnknownRuleActivations(n)
+  | init (n : Node) (current : Bool)      -- initThresholdCaches with best tip n
 
 def Q.node : Q → Node
   | .dep q => q.node
   | .warn _ n => n
+  | .warnAll n => n
+  | .init n _ => n
+
+def setW (i : Inst) (bit : Nat) (c' : Cache) (cs' : ChainSt) : Inst :=
+  { i with cs := cs', wcs := fun b => if b = bit then c' else i.wcs b }
+
+/-- one pass over the warning bits at `np` (the node BEFORE the block of interest); the result is
+    whether some bit is Active. -/
+def warnLoop (net : Net) (np : Node) : List Nat → Inst → Inst × Option Bool
+  | [], i => (i, some false)
+  | bit :: bits, i =>
+    match thresholdState net bit (i.wcs bit) i.cs np with
+    | (c', cs', none) => (setW i bit c' cs', none)
+    | (c', cs', some st) =>
+      match warnLoop net np bits (setW i bit c' cs') with
+      | (i', none) => (i', none)
+      | (i', some b) => (i', some (b || st == .active))
+
+/-- `warnUnknownRuleActivations(n)`: states for the block `n` itself (from `n.parent`); the first
+    Active bit sets `unknownRulesWarned` (LockedIn only logs). -/
+def warnAll (net : Net) (i : Inst) (n : Node) : Inst × Spec.Answer :=
+  match warnLoop net n.tail warnBits i with
+  | (i', none) => (i', .panic)
+  | (i', some b) => ({ i' with warned := i'.warned || b }, .flag (i'.warned || b))
+
+/-- `initThresholdCaches` with best tip `n`: every warning bit, then every deployment, at
+    `n.parent`; if the chain is current, `warnUnknownRuleActivations(n)`. -/
+def initCaches (net : Net) (i : Inst) (n : Node) (current : Bool) : Inst × Spec.Answer :=
+  match warnLoop net n.tail warnBits i with
+  | (i1, none) => (i1, .panic)
+  | (i1, some _) =>
+    match calcNextBlockVersion net i1.cs n.tail VB_TOP_BITS with
+    | (cs2, none) => ({ i1 with cs := cs2 }, .panic)
+    | (cs2, some _) =>
+      if current then warnAll net { i1 with cs := cs2 } n
+      else ({ i1 with cs := cs2 }, .flag i1.warned)
 
 def runQ (net : Net) (i : Inst) : Q → Inst × Spec.Answer
   | .dep q =>
     match Model.runQuery net i.cs q with
-    | (cs', a) => (⟨cs', i.wcs⟩, a)
+    | (cs', a) => ({ i with cs := cs' }, a)
   | .warn bit n =>
     match thresholdState net bit (i.wcs bit) i.cs n with
-    | (c', cs', r) => (⟨cs', fun b => if b = bit then c' else i.wcs b⟩, Model.ansOf r)
+    | (c', cs', r) => (setW i bit c' cs', Model.ansOf r)
+  | .warnAll n => warnAll net i n
+  | .init n cur => initCaches net i n cur
 
 def runQs (net : Net) : Inst → List Q → Inst × List Spec.Answer
   | i, [] => (i, [])
@@ -138,8 +182,20 @@ def runQs (net : Net) : Inst → List Q → Inst × List Spec.Answer
       match runQs net i' qs with
       | (i'', as) => (i'', a :: as)
 
-def specAnswer (net : Net) (deps : List Dep) : Q → Spec.Answer
-  | .dep q => Spec.answer net deps q
-  | .warn bit n => .st (state net deps bit n)
+/-! the Spec side: answers depend on the history only through the sticky `warned` flag. -/
+def anyActive (net : Net) (deps : List Dep) (np : Node) : Bool :=
+  warnBits.any (fun bit => state net deps bit np == .active)
+
+def specStep (net : Net) (deps : List Dep) (w : Bool) : Q → Bool × Spec.Answer
+  | .dep q => (w, Spec.answer net deps q)
+  | .warn bit n => (w, .st (state net deps bit n))
+  | .warnAll n => (w || anyActive net deps n.tail, .flag (w || anyActive net deps n.tail))
+  | .init n cur =>
+    if cur then (w || anyActive net deps n.tail, .flag (w || anyActive net deps n.tail))
+    else (w, .flag w)
+
+def specRun (net : Net) (deps : List Dep) : Bool → List Q → List Spec.Answer
+  | _, [] => []
+  | w, q :: qs => (specStep net deps w q).2 :: specRun net deps (specStep net deps w q).1 qs
 
 end BV.C14.Warn
